@@ -223,4 +223,193 @@ theorem good_handle : ∀ (fuel : Nat),
           obtain ⟨hp, hn⟩ := h3 ev hev id' hid'
           exact ⟨hp, m, List.mem_cons_self, hn⟩
 
+/-! ### an rpc_error is never handed to a caller as a result body -/
+
+/-- No `result` notification carries a payload that starts with the rpc_error type id. -/
+def NoErrAsResult (o : Out) : Prop :=
+  ∀ id d, Ev.result id d ∈ o.evs → ∀ r, getU32 d ≠ .ok (rpcErrorTypeID, r)
+
+theorem near_nil (st : St) (ok : Bool) : NoErrAsResult ⟨st, [], ok⟩ := by
+  intro id d h; cases h
+
+theorem near_of_noresult (o : Out) (h : ∀ ev ∈ o.evs, ∀ id d, ev ≠ .result id d) : NoErrAsResult o := by
+  intro id d hm r _
+  exact h _ hm id d rfl
+
+theorem near_pong (st : St) (b : Bytes) : NoErrAsResult (handlePong st b) := by
+  unfold handlePong
+  repeat' split
+  all_goals first
+    | exact near_nil st _
+    | (apply near_of_noresult; simp)
+
+theorem near_session (st : St) (b : Bytes) : NoErrAsResult (handleSessionCreated st b) := by
+  unfold handleSessionCreated
+  repeat' split
+  all_goals first
+    | exact near_nil st _
+    | (apply near_of_noresult; simp)
+
+theorem near_salts (st : St) (b : Bytes) : NoErrAsResult (handleFutureSalts st b) := by
+  unfold handleFutureSalts
+  repeat' split
+  all_goals first
+    | exact near_nil st _
+    | (apply near_of_noresult; simp)
+
+theorem notifyAcks_noresult : ∀ (ids acks : List Nat), ∀ ev ∈ (notifyAcks acks ids).2, ∀ id d, ev ≠ .result id d := by
+  intro ids
+  induction ids with
+  | nil => intro acks ev h; simp [notifyAcks] at h
+  | cons i is ih =>
+    intro acks ev h
+    simp only [notifyAcks] at h
+    split at h
+    · simp only [List.mem_cons] at h
+      rcases h with rfl | h
+      · intro id d hh; cases hh
+      · exact ih _ ev h
+    · exact ih _ ev h
+
+theorem near_ack (st : St) (b : Bytes) : NoErrAsResult (handleAck st b) := by
+  unfold handleAck
+  repeat' split
+  all_goals first
+    | exact near_nil st _
+    | (apply near_of_noresult
+       intro ev hev
+       exact notifyAcks_noresult _ _ ev (by simpa using hev))
+
+theorem near_notifyError (st : St) (id : Nat) (e : Ev) (he : ∀ i d, e ≠ .result i d) (ok : Bool) :
+    NoErrAsResult ⟨st, notifyError st id e, ok⟩ := by
+  apply near_of_noresult
+  intro ev hev
+  unfold notifyError at hev
+  split at hev
+  · simp only [List.mem_singleton] at hev
+    subst hev; exact he
+  · cases hev
+
+theorem near_badMsg (st : St) (withSalt : Bool) (b : Bytes) : NoErrAsResult (handleBadMsg st withSalt b) := by
+  unfold handleBadMsg
+  repeat' split
+  all_goals first
+    | exact near_nil st _
+    | (apply near_notifyError; intro i d hh; cases hh)
+
+theorem resultContent_peek {gz : List (Bytes × Option Bytes)} {id0 id : Nat} {body d r0 : Bytes}
+    (h0 : getU32 body = .ok (id0, r0)) (h : resultContent gz id0 body = some (id, d)) :
+    ∃ r, getU32 d = .ok (id, r) := by
+  unfold resultContent at h
+  split at h
+  · cases hg : gunzip gz body with
+    | none => simp [hg] at h
+    | some d' =>
+      simp only [hg] at h
+      cases hd : getU32 d' with
+      | error e => simp [hd] at h
+      | ok p =>
+        obtain ⟨id1, r1⟩ := p
+        simp only [hd, Option.some.injEq, Prod.mk.injEq] at h
+        obtain ⟨h1, h2⟩ := h
+        subst h1 h2
+        exact ⟨r1, hd⟩
+  · simp only [Option.some.injEq, Prod.mk.injEq] at h
+    obtain ⟨h1, h2⟩ := h
+    subst h1 h2
+    exact ⟨r0, h0⟩
+
+theorem near_result (st : St) (b : Bytes) : NoErrAsResult (handleResult st b) := by
+  unfold handleResult
+  cases h0 : consumeID resultTypeID b with
+  | error e => exact near_nil st _
+  | ok p0 =>
+    obtain ⟨u, r0⟩ := p0
+    simp only
+    cases h1 : getU64 r0 with
+    | error e => exact near_nil st _
+    | ok p1 =>
+      obtain ⟨req, body⟩ := p1
+      simp only
+      cases h2 : getU32 body with
+      | error e => exact near_nil st _
+      | ok p2 =>
+        obtain ⟨id0, rb⟩ := p2
+        simp only
+        cases hc : resultContent st.gz id0 body with
+        | none => exact near_nil st _
+        | some q =>
+          obtain ⟨id, d⟩ := q
+          obtain ⟨rd, hrd⟩ := resultContent_peek h2 hc
+          simp only
+          by_cases he : id = rpcErrorTypeID
+          · simp only [he, if_true]
+            repeat' split
+            all_goals first
+              | exact near_nil st _
+              | (apply near_notifyError; intro i d hh; cases hh)
+          · simp only [he, if_false]
+            by_cases hp : id = pongTypeID
+            · simp only [hp, if_true]; exact near_pong st _
+            · simp only [hp, if_false]
+              split
+              · intro i d' hm r hr
+                simp only [List.mem_singleton, Ev.result.injEq] at hm
+                obtain ⟨_, rfl⟩ := hm
+                rw [hrd] at hr
+                simp only [Except.ok.injEq, Prod.mk.injEq] at hr
+                exact he hr.1
+              · exact near_nil st _
+
+theorem near_handle : ∀ (fuel : Nat),
+    (∀ st b, NoErrAsResult (handle fuel st b)) ∧ (∀ st ms, NoErrAsResult (handleAll fuel st ms)) := by
+  intro fuel
+  induction fuel with
+  | zero =>
+    constructor
+    · intro st b; simp only [handle]; exact near_nil st _
+    · intro st ms; simp only [handleAll]; exact near_nil st _
+  | succ f ih =>
+    obtain ⟨ihH, ihA⟩ := ih
+    constructor
+    · intro st b
+      simp only [handle]
+      cases hid : getU32 b with
+      | error e => exact near_nil st _
+      | ok p =>
+        obtain ⟨id, r0⟩ := p
+        simp only
+        split
+        · exact near_session st b
+        · split
+          · exact near_badMsg st false b
+          · split
+            · exact near_badMsg st true b
+            · exact near_nil st _
+        · exact near_salts st b
+        · cases hc : decodeContainer b with
+          | none => exact near_nil st _
+          | some msgs => exact ihA st msgs
+        · exact near_result st b
+        · exact near_pong st b
+        · exact near_ack st b
+        · cases hg : gunzip st.gz b with
+          | none => exact near_nil st _
+          | some d => exact ihH st d
+        · exact near_nil st _
+        · exact near_nil st _
+        · apply near_of_noresult; simp
+    · intro st ms
+      cases ms with
+      | nil => simp only [handleAll]; exact near_nil st _
+      | cons m rest =>
+        simp only [handleAll]
+        split
+        · intro id d hm
+          simp only [List.mem_append] at hm
+          rcases hm with hm | hm
+          · exact ihH st m id d hm
+          · exact ihA _ rest id d hm
+        · exact ihH st m
+
 end TdModel.C23
